@@ -166,6 +166,16 @@ pub fn check_source(source: &str) -> Result<(usize, bool, bool, bool), Failure> 
 }
 
 pub fn case(tape: &[u32]) -> CaseOutcome {
+    if tape.len() >= 2 && tape[0] == 0xFFFF_FF18 {
+        let bytes: Vec<u8> = tape[2..].iter().map(|w| *w as u8).collect();
+        return match String::from_utf8(bytes) {
+            Ok(text) => match check_source(&text) {
+                Err(f) => CaseOutcome::Fail(f),
+                Ok(_) => CaseOutcome::Discard("artifact not reproduced"),
+            },
+            Err(_) => CaseOutcome::Discard("artifact is not UTF-8"),
+        };
+    }
     let mut t = Tape::new(tape);
     let base = pysrc::gen_source(&mut t);
     let nfaults = t.weighted(&[2, 4, 4, 3, 2, 1, 1]);
@@ -204,7 +214,30 @@ pub fn spec(tier: &str) -> Spec {
 
 pub fn run_check(tier: &str) -> i32 {
     let started = std::time::Instant::now();
-    let spec = spec(tier);
-    let result = run_tapes(&spec, case);
+    let mut spec = spec(tier);
+    let mut result = run_tapes(&spec, case);
+    if tier == "thorough" && result.violations.is_empty() {
+        let seeds: Vec<Vec<u8>> = pysrc::CORPUS.iter().chain(pysrc::RICH.iter()).map(|s| s.as_bytes().to_vec()).collect();
+        match crate::fuzzrun::run("c18_parse_errors", 60_000, 8, spec.seed, &seeds, 2048) {
+            Err(e) => harness_error(format!("libFuzzer c18_parse_errors: {}", e)),
+            Ok(fr) => {
+                result.accum.evaluations += fr.executions;
+                *result.accum.counters.entry("libfuzzer:c18_parse_errors:executions".to_string()).or_default() += fr.executions;
+                *result.accum.counters.entry("libfuzzer:c18_parse_errors:corpus-files".to_string()).or_default() += fr.corpus_files as u64;
+                let arts: Vec<String> = fr.artifacts.iter().filter_map(|p| std::fs::read(p).ok()).filter_map(|b| String::from_utf8(b).ok()).collect();
+                let r = run_fixed(
+                    &spec,
+                    &arts,
+                    |text| match check_source(text) {
+                        Err(f) => CaseOutcome::Fail(f),
+                        Ok(_) => CaseOutcome::Discard("artifact not reproduced"),
+                    },
+                    |text| vec![0xFFFF_FF18, 0].into_iter().chain(text.bytes().map(|x| x as u32)).collect(),
+                );
+                result = merge_results(result, r);
+            }
+        }
+        spec.rule.push_str(" Thorough tier: additionally libFuzzer (target c18_parse_errors on raw Python text, 8 processes, corpus sources as seeds for half of them; executions in `counters`).");
+    }
     finish(&spec, result, started)
 }
